@@ -610,6 +610,34 @@ func genC20(g *Gen) {
 	for _, name := range []string{"inner", "innerptr", "outer", "outerslice", "emb", "embptr", "twoptr", "samename", "interior", "interiorarr", "selfptr", "selfarr"} {
 		g.Case("size", J{"topnil": false, "static": name})
 	}
+	// ALL-ZERO values of types with alignment padding and zero-size tails (every scalar 0 / false, every string empty,
+	// every pointer, slice and map nil): as an array of 1..3 elements, a slice, inside a struct, behind a pointer, in an
+	// interface; and the same with one non-zero field in the last element
+	{
+		sc := func(k string) J { return J{"k": k} }
+		padded := []struct{ t, z J }{
+			{J{"k": "struct", "f": []J{sc("int8"), sc("int64"), {"k": "ptr", "e": sc("int32")}, sc("bool")}},
+				J{"f": []J{{"x": 0}, {"x": 0}, {"nil": true}, {"x": 0}}}},
+			{J{"k": "struct", "f": []J{sc("bool"), {"k": "ptr", "e": sc("int64")}}}, J{"f": []J{{"x": 0}, {"nil": true}}}},
+			{J{"k": "struct", "f": []J{sc("string"), {"k": "array", "n": 0, "e": sc("int16")}}}, J{"f": []J{{"n": 0, "x": 0}, {"el": []J{}}}}},
+			{J{"k": "struct", "f": []J{sc("uint16"), {"k": "slice", "e": sc("int64")}, sc("uint8")}}, J{"f": []J{{"x": 0}, {"nil": true, "el": []J{}}, {"x": 0}}}},
+		}
+		for _, pz := range padded {
+			for n := 1; n <= 3; n++ {
+				els := make([]J, n)
+				for i := range els {
+					els[i] = pz.z
+				}
+				arrT, arrV := J{"k": "array", "n": n, "e": pz.t}, J{"el": els}
+				g.Case("size", J{"topnil": false, "t": arrT, "v": arrV})
+				g.Case("size", J{"topnil": false, "t": J{"k": "slice", "e": pz.t}, "v": J{"nil": false, "el": els}})
+				g.Case("size", J{"topnil": false, "t": J{"k": "ptr", "e": arrT}, "v": J{"nil": false, "to": arrV}})
+				g.Case("size", J{"topnil": false, "t": J{"k": "struct", "f": []J{sc("int8"), arrT, sc("int8")}}, "v": J{"f": []J{{"x": 0}, arrV, {"x": 0}}}})
+				g.Case("size", J{"topnil": false, "t": J{"k": "array", "n": 2, "e": arrT}, "v": J{"el": []J{arrV, arrV}}})
+				g.Case("size", J{"topnil": false, "t": J{"k": "slice", "e": sc("iface")}, "v": J{"nil": false, "el": []J{{"nil": false, "dt": arrT, "dyn": arrV}}}})
+			}
+		}
+	}
 	// every scalar kind at top level, in a slice, an array, behind a pointer, in an interface, as map value
 	for _, k := range scalarKinds {
 		st := J{"k": k}
